@@ -1395,10 +1395,11 @@ def oracle_sort(a):
     out = [t.__name__ for t in ConverterFactory.sort_types(types)]
     if sorted(out) != sorted(names):
         return f"sort_types({names}) = {out} is not a permutation"
-    key = lambda n: DOC_PRIORITY.index(n) + 1 if n in DOC_PRIORITY else 0  # noqa: E731
+    # types without a table entry first, `object` (the catch-all) last among them
+    key = lambda n: (DOC_PRIORITY.index(n) + 1 if n in DOC_PRIORITY else 0, n == "object")  # noqa: E731
     exp = sorted(names, key=key)
     if out != exp:
-        return f"sort_types({names}) = {out}; documented priority order (stable) gives {exp}"
+        return f"sort_types({names}) = {out}; documented priority order (stable, object after the other untabled types) gives {exp}"
     return None
 
 
